@@ -178,6 +178,9 @@ pub fn run(op: &str, a: &Value) -> Value {
         "lax.roundtrip_lax" => val(lax_out(&lax::OpenHypergraph::from_strict(lax_in(&a["pre"]).to_strict()))),
         // ============================================================ categorical operations (C02, C04, C10)
         "lax.empty" => val(lax_out(&LaxOH::empty())),
+        "lax.identity_trait" => val(lax_out(&<LaxOH as Arrow>::identity(vec_o(&a["w"])))),
+        "lax.spider_trait" => opt(<LaxOH as Spider<VecKind>>::spider(ff(&a["s"]), ff(&a["t"]), vec_o(&a["w"])).map(|x| lax_out(&x))),
+        "lax.tensor_trait" => val(lax_out(&<LaxOH as Monoidal>::tensor(&lax_in(&a["f"]), &lax_in(&a["g"])))),
         "lax.unit" => val(json!(<LaxOH as Monoidal>::unit().iter().map(|o: &O| *o).collect::<Vec<O>>())),
         "lax.tensor" => val(lax_out(&lax_in(&a["f"]).tensor(&lax_in(&a["g"])))),
         "lax.tensor_bitor" => val(lax_out(&(&lax_in(&a["f"]) | &lax_in(&a["g"])))),
